@@ -316,6 +316,12 @@ func vfPick(vs []*vfViol, profile string) (*vfViol, string) {
 		if v.Owner == profile {
 			return v, ""
 		}
+		if v.Also == profile {
+			cp := *v
+			cp.Owner = profile
+			cp.Sig = profile + v.Sig[len(v.Owner):]
+			return &cp, ""
+		}
 	}
 	return nil, vs[0].Owner + ":" + vs[0].Sig
 }
@@ -378,6 +384,7 @@ func vfNonTrivial(id string, st *vfSMStats) (bool, []string) {
 	flag(st.nearExpiryObs > 0, "observation-within-1ns-of-expiry")
 	flag(st.ttlReplaced > 0, "ttl-replaced-while-pending")
 	flag(st.delWithBufferedInsert > 0, "del-while-insert-buffered")
+	flag(st.delOnFullBuffer > 0, "del-issued-on-full-buffer")
 	flag(st.drainedNonEmpty > 0, "drained-check-with-residents")
 	flag(st.sweepMixed > 0, "sweep-with-rewrite-or-late-insert")
 	flag(st.midSweepRewrites > 0, "write-during-sweep")
